@@ -27,15 +27,21 @@ struct Args {
     architecture: Arch,
 
     /// Path to output binary file [default: stdout]
-    #[clap(parse(from_os_str), short, long, value_name = "FILE")]
+    #[clap(parse(from_os_str), short, long, value_name = "FILE", global = true)]
     output: Option<PathBuf>,
 
     /// Paths to search for included files [repeatable]
-    #[clap(parse(from_os_str), short = 'I', long, value_name = "DIRECTORY")]
+    #[clap(
+        parse(from_os_str),
+        short = 'I',
+        long,
+        value_name = "DIRECTORY",
+        global = true
+    )]
     include: Vec<PathBuf>,
 
     /// Write AZ65 debug symbols to file
-    #[clap(parse(from_os_str), short = 'g', long, value_name = "FILE")]
+    #[clap(parse(from_os_str), short = 'g', long, value_name = "FILE", global = true)]
     debug: Option<PathBuf>,
 }
 
